@@ -437,6 +437,7 @@ CONTROLS = [("file-name cache consulted before the includer's directory", "C", 2
             ("include_next_idx global", "R1", 3, dict(NextAlg='"global"')),
             ("-idirafter argument", "R1", 3, dict(FixIdirArg=False)),
             ("-idirafter order", "R1", 3, dict(FixIdirOrder=False)),
+            ("#pragma once taken from a pre-scan of the opened file, conditionals ignored", "G", 1, dict(OncePrescan=True)),
             ("detect_include_guard pinned", "G", 1, dict(GuardAlg='"pinned"')),
             ("detect_include_guard tok->next only", "G", 1, dict(GuardAlg='"toknext"'))]
 
@@ -447,7 +448,7 @@ def submit_incl(ctx, pool):
         for d in ("/usr/local/include", "/usr/include/x86_64-linux-gnu", "/usr/include"):
             if os.path.exists("%s/%s.h" % (d, n)):
                 raise Infra("%s/%s.h exists on this machine; scenario header names would collide" % (d, n))
-    strides = dict(R1=5, R2=24, C=12, M=36, G=2, P=2) if q else dict(R1=1, R2=2, C=1, M=2, G=1, P=1)
+    strides = dict(R1=5, R2=24, C=12, M=36, G=3, P=2) if q else dict(R1=1, R2=2, C=1, M=2, G=1, P=1)
     jobs = dict(gen=[], ctl=[], mc=[])
     for fam, nopt in FAMS:
         out = os.path.join(ctx.scratch, "incl-%s.ndjson" % fam)
@@ -459,7 +460,7 @@ def submit_incl(ctx, pool):
                                           workers=4, timeout=1500))
     # sensitivity controls: the pinned algorithms must be rejected by TLC
     for name, fam, nopt, kw in CONTROLS:
-        cfg = ctx.cfg("pp", "Include_mc.cfg", Fam='"%s"' % fam, NOpt=nopt, Stride=2 if fam == "G" else (24 if fam in ("C", "M") else 12), **kw)
+        cfg = ctx.cfg("pp", "Include_mc.cfg", Fam='"%s"' % fam, NOpt=nopt, Stride=3 if fam == "G" else (24 if fam in ("C", "M") else 12), **kw)
         jobs["ctl"].append((name, pool.submit(ctx.tlc, "pp", "Include", cfg, workers=1, count=False)))
     return jobs
 
